@@ -140,6 +140,24 @@ namespace
           r.p2 = {{strtod(r.tokens[0].c_str(), nullptr), strtod(r.tokens[1].c_str(), nullptr)}};
           rows.push_back(r);
         }
+    // pairs of rows whose entries, written one after the other without a separator, give the same string (a cache keyed that way mixes them up)
+    if (c.dim == 3)
+      {
+        std::vector<std::array<std::string,4>> extra;
+        if (c.convert) extra = {{{tok(R_EARTH - 5e4), "0.5", "1.5", "50000"}}, {{tok(R_EARTH - 5e4), "0.51", ".5", "50000"}}, {{tok(R_EARTH - 5e4), "0.5", "1.5", "50000"}}, {{"6321000", "-2", "20", "50000"}}, {{"6321000", "-22", "0", "50000"}}};
+        else if (!spherical) extra = {{{"50000", "150000", "950000", "50000"}}, {{"500001", "50000", "950000", "50000"}}, {{"50000", "150000", "950000", "50000"}}, {{"-2", "50000", "990000", "10000"}}, {{"-25", "0000", "990000", "10000"}}};
+        for (auto &e : extra)
+          {
+            Row r; r.tokens = {e[0], e[1], e[2], e[3]}; r.depth = strtod(e[3].c_str(), nullptr);
+            if (c.convert)
+              {
+                const std::array<double,3> sp = {{strtod(e[0].c_str(), nullptr), strtod(e[1].c_str(), nullptr) * (WorldBuilder::Consts::PI/180.), strtod(e[2].c_str(), nullptr) * (WorldBuilder::Consts::PI/180.)}};
+                r.p3 = WorldBuilder::Utilities::spherical_to_cartesian_coordinates(sp).get_array();
+              }
+            else r.p3 = {{strtod(e[0].c_str(), nullptr), strtod(e[1].c_str(), nullptr), strtod(e[2].c_str(), nullptr)}};
+            rows.push_back(r);
+          }
+      }
     return rows;
   }
 
@@ -467,6 +485,17 @@ namespace
           s.push_back({join(t), 'R', "row with a non-numeric token"});
         }
     { auto t = good; t.back() += "#"; s.push_back({join(t), 'R', "row with trailing garbage"}); }
+    // comma separated rows with an empty field: the right count of numbers remains, but they are not in the columns they were written in
+    // (an empty field after the last number - a trailing separator - shifts nothing and is not part of this family)
+    for (size_t k = 0; k < good.size(); ++k)
+      for (const char *sep : {", ", ",", " , "})
+        {
+          std::vector<std::string> t = good;
+          t.insert(t.begin() + static_cast<long>(k), k % 2 ? " " : "");
+          std::string l;
+          for (size_t i = 0; i < t.size(); ++i) l += (i ? sep : "") + t[i];
+          s.push_back({l, 'R', "comma separated row with an empty field"});
+        }
     { auto t = good; t.push_back("# trailing comment"); s.push_back({join(t), 'R', "row followed by text"}); }
     s.push_back({"#dim = 2", 'R', "option line without a blank after # is not an option or comment line but a malformed row"});
     // options the tool documents as refused
